@@ -1,4 +1,5 @@
 import Grass.Interner
+import Grass.Generated.GlobalState
 /-
   C02 — A result is a pure function of source, options and visible files.
 
@@ -697,6 +698,246 @@ theorem C02_uniqueId_distinct (rnds : List (List Char)) (h : rnds.Nodup) :
     have : x = r := by simpa [uniqueId] using e
     subst this; exact h.1 hx
 
+/-! ### unique-id(): how the id is drawn (string.rs:240-249 over rand's `Alphanumeric`)
+
+  Distinctness is PROBABILISTIC in the code: each call draws twelve fresh characters, nothing is
+  remembered between calls.  What is proved: every result has the shape `id-` + 12 charset
+  characters and is a valid identifier whatever the generator returns and from whatever evaluation
+  context it is called (`C02_uniqueIdDraws_valid`); an id determines its twelve accepted words
+  (`C02_uniqueIdOfWords_injective`), so two calls collide IFF they draw the same 12-word vector:
+  for a uniform independent generator that is probability exactly 62^-12 per pair, hence at most
+  N(N-1)/2 · 62^-12 (< N² · 1.6e-22) for N calls in one compilation (union bound; the uniformity of
+  `thread_rng` is outside the model). -/
+
+theorem alnumCharset_isAlnum : ∀ c ∈ alnumCharset, isAlnum c = true := by decide
+theorem alnumCharset_nodup : alnumCharset.Nodup := by decide
+theorem alnumCharset_length : alnumCharset.length = 62 := by decide
+
+theorem sampleAlnum_mem : ∀ (ws : List Nat) (c : Char) (ws' : List Nat),
+    sampleAlnum ws = some (c, ws') → c ∈ alnumCharset := by
+  intro ws
+  induction ws with
+  | nil => intro c ws' h; simp [sampleAlnum] at h
+  | cons w ws ih =>
+    intro c ws' h
+    unfold sampleAlnum at h
+    split at h
+    · rename_i c' hc
+      simp only [Option.some.injEq, Prod.mk.injEq] at h
+      obtain ⟨rfl, _⟩ := h
+      exact List.mem_of_getElem? hc
+    · exact ih c ws' h
+
+theorem sampleAlnums_spec : ∀ (n : Nat) (ws : List Nat) (cs : List Char) (ws' : List Nat),
+    sampleAlnums n ws = some (cs, ws') → cs.length = n ∧ ∀ c ∈ cs, c ∈ alnumCharset := by
+  intro n
+  induction n with
+  | zero =>
+    intro ws cs ws' h
+    simp only [sampleAlnums, Option.some.injEq, Prod.mk.injEq] at h
+    obtain ⟨rfl, _⟩ := h
+    simp
+  | succ n ih =>
+    intro ws cs ws' h
+    unfold sampleAlnums at h
+    split at h
+    · cases h
+    · rename_i c ws1 h1
+      split at h
+      · cases h
+      · rename_i cs1 ws2 h2
+        simp only [Option.some.injEq, Prod.mk.injEq] at h
+        obtain ⟨rfl, _⟩ := h
+        obtain ⟨hl, hm⟩ := ih _ _ _ h2
+        refine ⟨by simp [hl], ?_⟩
+        intro x hx
+        rcases List.mem_cons.mp hx with rfl | hx
+        · exact sampleAlnum_mem _ _ _ h1
+        · exact hm x hx
+
+/-- One call: whatever words the generator returns, the result is `id-` + twelve charset characters,
+    a valid CSS identifier of length 15. -/
+theorem C02_uniqueIdDraw_shape (ws ws' : List Nat) (id : List Char) (h : uniqueIdDraw ws = some (id, ws')) :
+    isDrawShape id = true ∧ isIdent id = true ∧ id.length = 15 := by
+  unfold uniqueIdDraw at h
+  split at h
+  · cases h
+  · rename_i cs ws1 h1
+    simp only [Option.some.injEq, Prod.mk.injEq] at h
+    obtain ⟨rfl, _⟩ := h
+    obtain ⟨hl, hm⟩ := sampleAlnums_spec _ _ _ _ h1
+    refine ⟨?_, ?_, by simp [uniqueId, hl]⟩
+    · simp only [isDrawShape, uniqueId, List.take, List.drop, hl, beq_self_eq_true, Bool.true_and, List.all_eq_true]
+      intro c hc
+      exact List.contains_iff_mem.mpr (hm c hc)
+    · apply C02_uniqueId_valid_ident
+      rw [List.all_eq_true]
+      exact fun c hc => alnumCharset_isAlnum c (hm c hc)
+
+/-- Any number of calls within one compilation, from whatever contexts (the generator is the
+    thread's, not a copied field): `n` results, each of the drawn shape and a valid identifier. -/
+theorem C02_uniqueIdDraws_valid : ∀ (n : Nat) (ws : List Nat) (ids : List (List Char)),
+    uniqueIdDraws n ws = some ids →
+    ids.length = n ∧ ids.all isIdent = true ∧ ids.all isDrawShape = true := by
+  intro n
+  induction n with
+  | zero =>
+    intro ws ids h
+    simp only [uniqueIdDraws, Option.some.injEq] at h
+    subst h; simp
+  | succ n ih =>
+    intro ws ids h
+    unfold uniqueIdDraws at h
+    split at h
+    · cases h
+    · rename_i id ws1 h1
+      split at h
+      · cases h
+      · rename_i ids1 h2
+        simp only [Option.some.injEq] at h
+        subst h
+        obtain ⟨hl, hv, hs⟩ := ih _ _ h2
+        obtain ⟨s1, s2, _⟩ := C02_uniqueIdDraw_shape _ _ _ h1
+        simp [hl, hv, hs, s1, s2]
+
+theorem filterMap_charset_inj : ∀ (v w : List Nat), (∀ x ∈ v, x < 62) → (∀ x ∈ w, x < 62) →
+    v.filterMap (alnumCharset[·]?) = w.filterMap (alnumCharset[·]?) → v = w := by
+  have some_of_lt : ∀ a, a < 62 → ∃ c, alnumCharset[a]? = some c := by
+    intro a ha
+    exact ⟨alnumCharset[a]'(by rw [alnumCharset_length]; exact ha), List.getElem?_eq_getElem _⟩
+  intro v
+  induction v with
+  | nil =>
+    intro w _ hw h
+    cases w with
+    | nil => rfl
+    | cons b w =>
+      obtain ⟨c, hc⟩ := some_of_lt b (hw b (by simp))
+      simp [List.filterMap_cons, hc] at h
+  | cons a v ih =>
+    intro w hv hw h
+    obtain ⟨c, hc⟩ := some_of_lt a (hv a (by simp))
+    cases w with
+    | nil => simp [List.filterMap_cons, hc] at h
+    | cons b w =>
+      obtain ⟨d, hd⟩ := some_of_lt b (hw b (by simp))
+      simp only [List.filterMap_cons, hc, hd, List.cons.injEq] at h
+      obtain ⟨rfl, h2⟩ := h
+      have hab : a = b := nodup_getElem?_inj alnumCharset_nodup hc hd
+      subst hab
+      rw [ih w (fun x hx => hv x (by simp [hx])) (fun x hx => hw x (by simp [hx])) h2]
+
+/-- An id determines the accepted words it was made from: two calls return the same id IFF they
+    drew the same twelve words (per pair: one vector out of 62^12). -/
+theorem C02_uniqueIdOfWords_injective (v w : List Nat) (hv : ∀ x ∈ v, x < 62) (hw : ∀ x ∈ w, x < 62)
+    (h : uniqueIdOfWords v = uniqueIdOfWords w) : v = w := by
+  apply filterMap_charset_inj v w hv hw
+  simpa [uniqueIdOfWords, uniqueId] using h
+
+/-- Calls that draw pairwise distinct word vectors give pairwise distinct valid identifiers: P̂ holds. -/
+theorem C02_uniqueIdOfWords_ok (vs : List (List Nat)) (hlt : ∀ v ∈ vs, ∀ x ∈ v, x < 62) (hnd : vs.Nodup) :
+    uniqueIdsOk (vs.map uniqueIdOfWords) = true := by
+  have hvalid : ∀ v ∈ vs, isIdent (uniqueIdOfWords v) = true := by
+    intro v _
+    apply C02_uniqueId_valid_ident
+    rw [List.all_eq_true]
+    intro c hc
+    obtain ⟨x, _, hx⟩ := List.mem_filterMap.mp hc
+    exact alnumCharset_isAlnum c (List.mem_of_getElem? hx)
+  have hdist : (vs.map uniqueIdOfWords).Nodup := by
+    induction vs with
+    | nil => simp
+    | cons v vs ih =>
+      rw [List.nodup_cons] at hnd
+      simp only [List.map_cons, List.nodup_cons]
+      refine ⟨?_, ih (fun u hu => hlt u (by simp [hu])) hnd.2 (fun u hu => hvalid u (by simp [hu]))⟩
+      intro hm
+      obtain ⟨u, hu, e⟩ := List.mem_map.mp hm
+      have := C02_uniqueIdOfWords_injective u v (hlt u (by simp [hu])) (hlt v (by simp)) e
+      subst this
+      exact hnd.1 hu
+  simp only [uniqueIdsOk, Bool.and_eq_true, decide_eq_true_eq, List.all_eq_true]
+  refine ⟨?_, hdist⟩
+  intro id hid
+  obtain ⟨v, hv, rfl⟩ := List.mem_map.mp hid
+  exact hvalid v hv
+
+-- non-vacuity: words ≥ 62 are rejected (63 and 62 skipped); two calls; shapes; injectivity premise met
+example : uniqueIdDraws 2 ([63, 0, 26, 62, 52, 1, 2, 3, 4, 5, 6, 7, 8, 9] ++ List.replicate 12 61)
+    = some ["id-Aa0BCDEFGHIJ".toList, "id-999999999999".toList] := by decide
+example : uniqueIdsOk ([[0, 1, 2, 3, 4, 5, 6, 7, 8, 9, 10, 11], [0, 1, 2, 3, 4, 5, 6, 7, 8, 9, 10, 12]].map uniqueIdOfWords) = true := by
+  decide
+example : isDrawShape "id-aB3aB3aB3aB3".toList = true ∧ isDrawShape "u00zk3f".toList = false
+    ∧ isDrawShape "id-aB3aB3aB3aB".toList = false := by decide
+
+/-! ### random($limit): argument validation and range (math.rs:89-120) -/
+
+/-- Whatever the generator samples (`r` from `gen_range(0..n)`, i.e. `r < n`; `num/10^scale` from
+    `gen_range(0.0..1.0)`, i.e. `num < 10^scale`), the result of `random` lies in the range the
+    specification gives for its argument: [0,1) without a limit, 1 for limit 1, an integer in
+    1..limit for an integer limit ≥ 2, an error of the right class otherwise. -/
+theorem C02_random_in_range (a : RandArg) (r num scale : Nat)
+    (hr : ∀ n, randomSpec a = .oneTo n → (r : Int) < n) (hu : (num : Int) < pow10 scale) :
+    randomOk (randomSpec a) (randomResult a r num scale) = true := by
+  have p0 : pow10 0 = 1 := by decide
+  unfold randomResult
+  cases hs : randomSpec a with
+  | unit01 =>
+    simp only [randomOk, Bool.and_eq_true, decide_eq_true_eq]
+    exact ⟨Int.natCast_nonneg _, hu⟩
+  | exactly1 => simp [randomOk, p0]
+  | oneTo n =>
+    have := hr n hs
+    simp only [randomOk, p0, Bool.and_eq_true, decide_eq_true_eq]
+    omega
+  | errNumber => simp [randomOk]
+  | errInt => simp [randomOk]
+  | errPositive => simp [randomOk]
+
+/-- The validation accepts exactly the integer limits ≥ 1 (and the absent limit). -/
+theorem C02_random_accepts_iff (m : Int) (s : Nat) :
+    (randomSpec (.number m s) = .exactly1 ∨ ∃ n, randomSpec (.number m s) = .oneTo n) ↔
+    (m % pow10 s = 0 ∧ 1 ≤ m / pow10 s) := by
+  by_cases h1 : m % pow10 s = 0
+  · by_cases h2 : m / pow10 s = 1
+    · simp [randomSpec, h1, h2]
+    · by_cases h3 : m / pow10 s ≤ 0
+      · have h4 : ¬ (1 ≤ m / pow10 s) := by omega
+        simp [randomSpec, h1, h2, h3, h4]
+      · have h4 : 1 ≤ m / pow10 s := by omega
+        simp [randomSpec, h1, h2, h3, h4]
+  · simp [randomSpec, h1]
+
+example : randomSpec (.number 50 1) = .oneTo 5 ∧ randomSpec (.number 15 1) = .errInt ∧ randomSpec (.number 0 0) = .errPositive
+    ∧ randomSpec (.number (-3) 0) = .errPositive ∧ randomSpec (.number 10 1) = .exactly1 ∧ randomSpec .absent = .unit01 := by decide
+example : randomOk (.oneTo 5) (.value 5 0) = true ∧ randomOk (.oneTo 5) (.value 6 0) = false ∧ randomOk (.oneTo 5) (.value 25 1) = false
+    ∧ randomOk .unit01 (.value 9999 4) = true ∧ randomOk .unit01 (.value 1 0) = false := by decide
+example : randomOk (randomSpec (.number 7 0)) (randomResult (.number 7 0) 6 0 0) = true := by decide
+
+/-! ### static tie: the state that can outlive a compilation
+
+  `Grass.Generated.GlobalState.globalState` is regenerated on every run from the Rust source
+  (tools/translate_iter_sites.py `scan_globals`): every `static` / `thread_local!` / `lazy_static!`
+  item of the workspace with a class read off its declared type.  The survivors modelled in
+  Grass/Interner.lean are the interner (`STRINGS`: `Interner`) and the two counters
+  (`FUNCTION_COUNT`, `COMPLEX_SELECTOR_UNIQUE_ID`: `fetchAdd`/`runSchedule`). -/
+
+open Grass.Generated.GlobalState in
+/-- The modelled survivors, with the class the table must give them. -/
+def modelledSurvivors : List (String × Grass.Generated.GlobalState.GlobalClass) :=
+  [("STRINGS", .threadLocal), ("FUNCTION_COUNT", .counter), ("COMPLEX_SELECTOR_UNIQUE_ID", .counter)]
+
+open Grass.Generated.GlobalState in
+/-- Every item of the generated table is either never written after initialisation (no interior
+    mutability in its declared type) or one of the modelled survivors with the modelled class; no
+    item is of unknown class; and every modelled survivor is in the table.  A new `static`,
+    `thread_local!`, atomic or `static mut` in the source makes this fail until it is modelled. -/
+theorem C02_survivors_modelled :
+    (∀ g ∈ globalState, g.cls = .constAfterInit ∨ (g.name, g.cls) ∈ modelledSurvivors) ∧
+    (∀ m ∈ modelledSurvivors, ∃ g ∈ globalState, (g.name, g.cls) = m) := by
+  decide
+
+example : Grass.Generated.GlobalState.globalState.length ≥ 3 := by decide
 
 /-! ### non-vacuity: the hypotheses are met by concrete non-trivial values -/
 
